@@ -31,7 +31,7 @@ ANCHORS = [
     "acnportal.acnsim.network.charging_network:ChargingNetwork.is_feasible",
 ]
 REQUIRED = ["accepted_schedules_judged", "boundary_points", "vertex_points", "structure_walks", "site:caltech", "site:jpl", "site:office001",
-            "evse:basic", "evse:real", "cap:default", "cap:scaled", "sim_columns_judged", "transformer_power_within_1pct_of_rating",
+            "evse:basic", "evse:real", "cap:default", "cap:scaled", "sim_columns_judged", "linear_mode_points", "transformer_power_within_1pct_of_rating",
             "panel_or_pod_binding"]
 BUDGET_S = {"quick": 240, "thorough": 3000}
 VLL = 120.0 * math.sqrt(3.0)
@@ -191,8 +191,10 @@ def run_case(case, obs):
     cont = [bool(c) for c in net.is_continuous]
     A = np.array(ang)
 
+    mode = {"linear": False}
+
     def feasible(v):
-        return bool(net.is_feasible(v[:, None]))
+        return bool(net.is_feasible(v[:, None], linear=mode["linear"]))
 
     def round_down(v):
         if basic:
@@ -220,7 +222,11 @@ def run_case(case, obs):
         if w.max() <= 0:
             continue
         d = maxr * w / w.max()
-        how = "boundary"
+        # every fourth direction is explored with the network's linearised check (it also "reports feasible")
+        mode["linear"] = (k % 4 == 1)
+        how = "boundary-linear" if mode["linear"] else "boundary"
+        if mode["linear"]:
+            obs.ev("linear_mode_points")
         if feasible(d):
             s = d
         else:
@@ -234,7 +240,7 @@ def run_case(case, obs):
             s = lo * d
         if k % 3 == 2:
             # greedy coordinate filling from the boundary point to a vertex
-            how = "vertex"
+            how = "vertex-linear" if mode["linear"] else "vertex"
             s = s.copy()
             for i in nrng.permutation(n):
                 if rng.random() < 0.5:
